@@ -125,7 +125,7 @@ pub fn run_roundtrip(a: &Args) -> Result<(), String> {
     };
     let got: Vec<Value> = r.get_interval("chr1", qs, qe).map_err(|e| format!("query: {}", e))?
         .collect::<Result<Vec<_>, _>>().map_err(|e| format!("read: {}", e))?;
-    let want: Vec<(u32, u32, f32)> = vals.iter().filter(|v| v.1 > qs && v.0 < qe).map(|v| (v.0.max(qs), v.1.min(qe), v.2)).collect();
+    let want: Vec<(u32, u32, f32)> = vals.iter().filter(|v| qs < qe && v.1 > qs && v.0 < qe).map(|v| (v.0.max(qs), v.1.min(qe), v.2)).collect();
     if got.len() != want.len() { return Err(format!("query [{},{}) returned {} values, expected {}", qs, qe, got.len(), want.len())); }
     for (g, w) in got.iter().zip(want.iter()) {
         if g.start != w.0 || g.end != w.1 || g.value.to_bits() != w.2.to_bits() {
